@@ -204,6 +204,10 @@ func RegisterVrt(module string) {
 		fr.i.ex.frozen = nil
 		return nil
 	})
+	reg("Concurrently", func(fr *frame, a []value) value {
+		call(fr.i, fr, 0, a[1], nil)
+		return nil
+	})
 	reg("Repeat", func(fr *frame, a []value) value { return 1 })
 	reg("Steps", func(fr *frame, a []value) value { return int(fr.i.ex.steps) })
 }
